@@ -187,7 +187,11 @@ func clientOffers(i *IPC, w http.ResponseWriter, r *http.Request) {
 			w.WriteHeader(http.StatusGatewayTimeout)
 			return
 		default:
-			panic("unknown error")
+			// Any other error (e.g. an invalid NAT type) has no status code
+			// of its own in the legacy format.
+			log.Printf("legacy client request failed: %s", resp.Error)
+			w.WriteHeader(http.StatusBadRequest)
+			return
 		}
 	}
 
